@@ -1,27 +1,18 @@
 (* C16 - the theorem tying model and checker, the Prop-level reading of the checker,
    and the witnesses of the findings. *)
 From Coq Require Import String.
-From RV Require Import Results.Model Results.Proofs Results.ProofsXml Results.ProofsTsv Results.ProofsTsvDoc.
+From RV Require Import Results.Model Results.Proofs Results.ProofsXml Results.ProofsTsv Results.ProofsTsvDoc Results.ProofsCsv.
 Local Open Scope N_scope.
 
 Lemma json_ok : forall c, wf c = true -> c_fmt c = FJson -> spec_ok c (model_obs c) = true.
 Proof.
   intros c Hwf Hf. unfold spec_ok, model_obs. rewrite Hf.
   unfold wf in Hwf. apply andb_true_iff in Hwf. destruct Hwf as [Hwf _].
-  apply andb_true_iff in Hwf. destruct Hwf as [_ Hrows].
+  apply andb_true_iff in Hwf. destruct Hwf as [Hnd Hrows]. apply andb_true_iff in Hnd. destruct Hnd as [_ Hnm].
   destruct (c_ask c) as [b|].
   - rewrite (json_ask json (fun v => v) (fun v => v) (fun v => eq_refl)). apply eqb_reflx.
   - rewrite (json_select json (fun v => v) (fun v => v) (fun v => eq_refl)) by auto.
     unfold spec_select. rewrite list_eqb_refl by apply str_eqb_refl. simpl. apply rows_ok_bound_of. auto.
-Qed.
-
-Lemma cell_bound : forall v r, cell v r = cell v r. Proof. reflexivity. Qed.
-
-Lemma csv_main : forall c, wf c = true -> c_fmt c = FCsv -> spec_ok c (model_obs c) = true.
-Proof.
-  intros c Hwf Hf. unfold spec_ok, model_obs. rewrite Hf.
-  unfold wf in Hwf. rewrite Hf in Hwf. apply andb_true_iff in Hwf. destruct Hwf as [_ Ha].
-  destruct (c_ask c); [discriminate|]. apply csv_ok.
 Qed.
 
 Theorem spec_ok_model : forall c, wf c = true -> spec_ok c (model_obs c) = true.
@@ -30,7 +21,8 @@ Proof.
   - apply json_ok; auto.
   - apply xml_ok; auto.
   - apply tsv_ok; auto.
-  - apply csv_main; auto.
+  - apply csv_cells_ok; auto.
+  - apply csvp_ok; auto.
 Qed.
 
 (* ------------------------------------------------------------------ *)
@@ -63,15 +55,15 @@ Qed.
    order, as many rows in the same order, and row by row every variable bound to the same term or
    unbound; for XML this is demanded of every expressible result *)
 Theorem spec_ok_select_reading : forall c vs ps,
-  c_fmt c <> FCsv -> c_ask c = None -> (c_fmt c = FXml -> xml_expressible c = true) ->
+  c_fmt c <> FCsv -> c_fmt c <> FCsvP -> c_ask c = None -> (c_fmt c = FXml -> xml_expressible c = true) ->
   (spec_ok c (OSel vs ps) = true <-> vs = c_vars c /\ Forall2 (row_agrees (c_vars c)) (c_rows c) ps).
 Proof.
-  intros c vs ps Hf Ha Hx. unfold spec_ok. rewrite Ha.
+  intros c vs ps Hf Hf2 Ha Hx. unfold spec_ok. rewrite Ha.
   assert (E : (spec_select c (OSel vs ps) = true)
               <-> vs = c_vars c /\ Forall2 (row_agrees (c_vars c)) (c_rows c) ps).
   { unfold spec_select. rewrite andb_true_iff, rows_ok_reflect.
     destruct (@list_eqb_spec _ _ str_eqb_spec vs (c_vars c)); split; intros [H1 H2]; split; auto; congruence. }
-  destruct (c_fmt c); try exact E; [|congruence]. rewrite Hx by reflexivity. exact E.
+  destruct (c_fmt c); try exact E; try congruence. rewrite Hx by reflexivity. exact E.
 Qed.
 
 (* an XML result that XML 1.0 cannot express must be refused by the serialiser *)
@@ -84,14 +76,14 @@ Proof.
 Qed.
 
 Theorem spec_ok_ask_reading : forall c b o,
-  c_fmt c <> FCsv -> c_ask c = Some b -> (spec_ok c o = true <-> o = OAsk b).
+  c_fmt c <> FCsv -> c_fmt c <> FCsvP -> c_ask c = Some b -> (spec_ok c o = true <-> o = OAsk b).
 Proof.
-  intros c b o Hf Ha. unfold spec_ok. rewrite Ha.
+  intros c b o Hf Hf2 Ha. unfold spec_ok. rewrite Ha.
   assert (E : match o with OAsk b' => Bool.eqb b b' | _ => false end = true <-> o = OAsk b).
   { destruct o as [| |b'| |]; split; intro H; try discriminate.
     - apply eqb_prop in H. congruence.
     - inversion H. apply eqb_reflx. }
-  destruct (c_fmt c); try exact E. congruence.
+  destruct (c_fmt c); try exact E; congruence.
 Qed.
 
 Theorem spec_ok_csv_reading : forall c o,
@@ -105,6 +97,49 @@ Proof.
   - inversion H. apply list_eqb_refl. intro. apply list_eqb_refl. apply str_eqb_refl.
 Qed.
 
+(* rdflib's own CSV reader: same variables, same number of rows, and for every variable of a row either
+   nothing - exactly when the CSV value of the cell is empty - or a term whose string is that value *)
+Definition csvp_row_agrees (vars : list str) (r : row) (p : prow) : Prop :=
+  (forall v, In v vars ->
+     match lookup v p with
+     | Some t => term_text t = csv_value (cell v r) /\ csv_value (cell v r) <> []
+     | None => csv_value (cell v r) = []
+     end)
+  /\ (forall k, In k (keys p) -> In k vars).
+
+Lemma csvp_row_reflect : forall vars r p, csvp_row_ok vars r p = true <-> csvp_row_agrees vars r p.
+Proof.
+  intros vars r p. unfold csvp_row_ok, csvp_row_agrees. rewrite andb_true_iff, !forallb_forall. split.
+  - intros [H1 H2]. split.
+    + intros v Hv. specialize (H1 v Hv). destruct (lookup v p) as [t|].
+      * apply andb_true_iff in H1. destruct H1 as [Ha Hb]. apply str_eqb_true in Ha. split; auto.
+        intro E. rewrite E in Hb. discriminate.
+      * destruct (csv_value (cell v r)); [reflexivity|discriminate].
+    + intros k Hk. apply memb_str_In. auto.
+  - intros [H1 H2]. split.
+    + intros v Hv. specialize (H1 v Hv). destruct (lookup v p) as [t|].
+      * destruct H1 as [Ha Hb]. rewrite Ha, str_eqb_refl. destruct (csv_value (cell v r)); [congruence|reflexivity].
+      * rewrite H1. reflexivity.
+    + intros k Hk. apply memb_str_In. auto.
+Qed.
+
+Lemma csvp_rows_reflect : forall vars rs ps, csvp_rows_ok vars rs ps = true <-> Forall2 (csvp_row_agrees vars) rs ps.
+Proof.
+  induction rs as [|r rs IH]; intros [|p ps]; simpl; split; intro H; try discriminate; try constructor;
+    try (inversion H; fail).
+  - apply andb_true_iff in H. apply csvp_row_reflect. tauto.
+  - apply andb_true_iff in H. apply IH. tauto.
+  - inversion H; subst. apply andb_true_iff. split; [apply csvp_row_reflect|apply IH]; auto.
+Qed.
+
+Theorem spec_ok_csvp_reading : forall c vs ps,
+  c_fmt c = FCsvP ->
+  (spec_ok c (OSel vs ps) = true <-> vs = c_vars c /\ Forall2 (csvp_row_agrees (c_vars c)) (c_rows c) ps).
+Proof.
+  intros c vs ps Hf. unfold spec_ok. rewrite Hf. rewrite andb_true_iff, csvp_rows_reflect.
+  destruct (@list_eqb_spec _ _ str_eqb_spec vs (c_vars c)); split; intros [H1 H2]; split; auto; congruence.
+Qed.
+
 (* ------------------------------------------------------------------ *)
 (* witnesses of the findings (each replayed on rdflib by the harness corpus) *)
 
@@ -112,13 +147,13 @@ Definition st0 : style := {| st_sq := false; st_esc_all := false; st_bare := fal
 Definition vx : str := [120].
 Definition iri_a : term := IRI (s2l "http://e/a"%string).
 Definition mk (f : fmt) (rows : list row) (st : style) : case :=
-  {| c_fmt := f; c_ask := None; c_vars := [vx]; c_rows := rows; c_style := st; c_bytes := true |}.
+  {| c_fmt := f; c_ask := None; c_vars := [vx]; c_rows := rows; c_style := st; c_bytes := true; c_src := 1 |}.
 
 (* all of these were violations once; they are accepted since the repairs (notes/C16.md) *)
 Definition w_F11a := mk FTsv [[(vx, Some iri_a)]; []; [(vx, Some iri_a)]] st0.
 Definition w_F11a2 : case :=
   {| c_fmt := FTsv; c_ask := None; c_vars := [vx; [121]]; c_rows := [[(vx, Some iri_a)]; []; [([121], Some iri_a)]];
-     c_style := st0; c_bytes := true |}.
+     c_style := st0; c_bytes := true; c_src := 1 |}.
 Definition w_F11b := mk FXml [[(vx, Some (Lit [97; 1; 98] None None))]] st0.
 Definition w_F11c := mk FXml [[(vx, Some (Lit [97; 13; 98; 13; 10] None None))]] st0.
 Definition w_F11d_iri := mk FXml [[(vx, Some (IRI []))]] st0.
@@ -129,7 +164,7 @@ Definition w_F11f := mk FTsv [[(vx, Some (Lit [105; 116; 39; 115] None None))]]
 Definition w_F11g := mk FXml [[(vx, Some (Lit [48] (Some xsd_integer) None))]] st0.
 Definition w_F11h : case :=
   {| c_fmt := FTsv; c_ask := None; c_vars := [vx; [121; 5760]];
-     c_rows := [[(vx, Some iri_a); ([121; 5760], Some iri_a)]]; c_style := st0; c_bytes := true |}.
+     c_rows := [[(vx, Some iri_a); ([121; 5760], Some iri_a)]]; c_style := st0; c_bytes := true; c_src := 1 |}.
 
 Lemma repaired :
   (wf w_F11a = true /\ model_obs w_F11a = OSel [vx] [[(vx, iri_a)]; []; [(vx, iri_a)]])
@@ -142,6 +177,19 @@ Lemma repaired :
   /\ (wf w_F11f = true /\ model_obs w_F11f = OSel [vx] [[(vx, Lit [105; 116; 39; 115] None None)]])
   /\ (wf w_F11g = true /\ model_obs w_F11g = OSel [vx] [[(vx, Lit [48] (Some xsd_integer) None)]])
   /\ (wf w_F11h = true /\ model_obs w_F11h = OSel [vx; [121; 5760]] [[(vx, iri_a); ([121; 5760], iri_a)]]).
+Proof. vm_compute. repeat split. Qed.
+
+(* F11i, repaired by 60d20593: the case is accepted now; with the lines cut as the codecs reader cut
+   them (LSplit) the unquoted field with a form feed is split and a row appears *)
+Definition w_F11i : case :=
+  {| c_fmt := FCsvP; c_ask := None; c_vars := [vx];
+     c_rows := [[(vx, Some (Lit [97; 12; 98] None None))]; [(vx, Some iri_a)]]; c_style := st0; c_bytes := true; c_src := 0 |}.
+
+Lemma csv_bytes_prefix_refuted :
+  (wf w_F11i = true /\ spec_ok w_F11i (model_obs w_F11i) = true
+   /\ model_obs w_F11i = OSel [vx] [[(vx, Lit [97; 12; 98] None None)]; [(vx, iri_a)]])
+  /\ csv_parse LSplit (csv_text (csv_serialize (c_vars w_F11i) (c_rows w_F11i)))
+     = OSel [vx] [[(vx, Lit [97; 12] None None)]; [(vx, Lit [98] None None)]; [(vx, iri_a)]].
 Proof. vm_compute. repeat split. Qed.
 
 (* historical behaviour kept in the model: the row loop before 40b19e31 drops the row with nothing
